@@ -26,7 +26,8 @@ overlapping it partially from each side (catchment cells left of / below the coa
 inside it; filled and unfilled. Voronoi: the same catchments with 1..6 points inside / outside / coincident with
 cell centres / mirrored about centres (equidistant) / bitwise duplicates / lattice coordinates / 1e30..1e150
 away; more points than cells and more cells than points. A case is non-trivial when at least one centre is
-inside the coarse grid (intersection) or always (Voronoi). Malformed stream: no overlap (ValueError), zero points.
+inside the coarse grid (intersection) or always (Voronoi). Malformed stream: no overlap (ValueError), zero points
+(error), a catchment without cells (NaN weights, ValueError).
 """
 import json
 import math
@@ -434,6 +435,9 @@ def run_intersect(ctx, st, mods, ca, fine, coarse, cells, filled, tag, origin="g
     if len(idx) != len(w) or len(idx) == 0:
         ctx.finding("intersect/lengths", "idxcells and weights differ in length or are empty", {**case, **got})
         return
+    if any(not math.isfinite(v) for v in w):
+        ctx.finding("intersect/weight_not_finite", "a weight is NaN or infinite", {**case, **got})
+        return
     if namb == 0:
         if set(idx) != set(expect):
             miss = sorted(set(expect) - set(idx))
@@ -493,7 +497,9 @@ def run_intersect(ctx, st, mods, ca, fine, coarse, cells, filled, tag, origin="g
     toly = 8 * (abs(F(coarse["yll"])) + F(coarse["csz"]) * (nrc + 1)) * F(1, 2 ** 52)
     wx = F(coarse["xll"]) + cs * F(coarse["csz"])
     wy = F(coarse["yll"]) + (nrc - 1 - re_) * F(coarse["csz"])
-    if float(gr.cellsize) != coarse["csz"] or abs(F(float(gr.xllcorner)) - wx) > tolx or abs(F(float(gr.yllcorner)) - wy) > toly:
+    gx, gy = float(gr.xllcorner), float(gr.yllcorner)
+    if float(gr.cellsize) != coarse["csz"] or not (math.isfinite(gx) and math.isfinite(gy)) or \
+            abs(F(gx) - wx) > tolx or abs(F(gy) - wy) > toly:
         ctx.finding("intersect/subgrid_geometry", "the weight grid is not aligned with the parent cells it names",
                     {**case, **got, **sub, "xll": float(gr.xllcorner), "yll": float(gr.yllcorner),
                      "expected": [float(wx), float(wy)]})
@@ -549,6 +555,9 @@ def run_kernel(ctx, st, mods, gis, g, csz_area, pts, tag):
         return
     if len(set(idx)) != len(idx):
         ctx.finding("intersect/duplicate_cell", "a grid cell is listed more than once", {**case, **got})
+        return
+    if any(not math.isfinite(v) for v in w):
+        ctx.finding("intersect/weight_not_finite", "a weight is NaN or infinite", {**case, **got})
         return
     if namb == 0:
         ratio2 = (F(csz_area) / F(g["csz"])) ** 2
@@ -712,10 +721,13 @@ def run_voronoi(ctx, st, mods, gis, voronoi, ca, fine, cells, pts, tag, wrapper_
     big = np.zeros((m + 1, 2), dtype=np.float64)
     big[:npts] = np.array(pts, dtype=np.float64).reshape(-1, 2)
     wbig = np.zeros(m + 1, dtype=np.float64)
-    ierr = gis.voronoi(fine["nrows"], fine["ncols"], fine["xll"], fine["yll"], fine["csz"],
-                       np.array(cells, dtype=np.int64), big[:npts], wbig[:npts])
+    try:
+        ierr = gis.voronoi(fine["nrows"], fine["ncols"], fine["xll"], fine["yll"], fine["csz"],
+                           np.array(cells, dtype=np.int64), big[:npts], wbig[:npts])
+    except Exception as e:
+        ierr = f"{type(e).__name__}:{str(e)[:60]}".replace(" ", "_")
     wk = [float(v) for v in wbig[:npts]]
-    impl = "ok " + C.flist(wk) if ierr == 0 else "err:noPoints"
+    impl = "ok " + C.flist(wk) if ierr == 0 else ("err:noPoints" if isinstance(ierr, int) else "err:other:" + ierr)
     req = f"vor {geom_tok(fine)} {C.ilist(cells)} {pairs_tok(pts, C.f2h)}"
     st.add(req, impl, {**case, "entry": "c_hydrodiy_gis.voronoi"})
     w = wk
@@ -723,11 +735,14 @@ def run_voronoi(ctx, st, mods, gis, voronoi, ca, fine, cells, pts, tag, wrapper_
         try:
             w = [float(v) for v in voronoi(ca, np.array(pts, dtype=np.float64))]
             implw = "ok " + C.flist(w)
-        except ValueError as e:
-            implw = "err:" + str(e)[:60]
+        except Exception as e:
+            implw = f"err:other:{type(e).__name__}:{str(e)[:60]}".replace(" ", "_")
+            w = []
         st.add(req, implw, {**case, "entry": "grid.voronoi"})
-    if npts < 1:
-        ctx.count(("vor0", geom_tok(fine), tuple(cells)), False, "voronoi/no_points")
+    if npts < 1 or ncells < 1:
+        # outside the property's quantifier (1..6 points, non-empty catchment): correspondence only
+        ctx.count(("vor0", geom_tok(fine), tuple(cells), tuple(pts)), False,
+                  "voronoi/no_points" if npts < 1 else "voronoi/no_cells")
         return
     counts, namb, tie = voronoi_expect(fine, cells, pts)
     ctx.count(("vor", geom_tok(fine), tuple(cells), tuple(pts)), True,
@@ -735,10 +750,10 @@ def run_voronoi(ctx, st, mods, gis, voronoi, ca, fine, cells, pts, tag, wrapper_
               sample=case if origin == "gen" and ncells <= 6 else None)
     got = {"weights": w}
     if ierr != 0 or len(w) != npts:
-        ctx.finding("voronoi/error_or_length", "voronoi fails or returns a wrong number of weights", {**case, **got, "ierr": int(ierr)})
+        ctx.finding("voronoi/error_or_length", "voronoi fails or returns a wrong number of weights", {**case, **got, "ierr": ierr})
         return
-    if any(not v >= 0 for v in w):
-        ctx.finding("voronoi/negative_weight", "a Voronoi weight is negative or NaN", {**case, **got})
+    if any(not (v >= 0 and math.isfinite(v)) for v in w):
+        ctx.finding("voronoi/negative_weight", "a Voronoi weight is negative, NaN or infinite", {**case, **got})
         return
     if abs(sum(F(v) for v in w) - 1) > F(1, 10 ** 12):
         ctx.finding("voronoi/sum_not_one", "Voronoi weights do not sum to 1", {**case, **got, "sum": float(sum(w))})
@@ -801,7 +816,7 @@ def body(ctx):
                         [(float(p[0]), float(p[1])) for p in case["points"]], "corpus", wrapper_ok, origin="corpus")
 
     # ---- (catchment, coarse grid) pairs and Voronoi configurations on the same catchments
-    npairs = ctx.scale(600, 6000)
+    npairs = ctx.scale(1800, 15000)
     ncatch = npairs // 3
     done_i = done_v = 0
     for ic in range(ncatch):
@@ -821,10 +836,16 @@ def body(ctx):
             run_voronoi(ctx, st, mods, gis, voronoi, ca, fine, area_l, pts, kind, wrapper_ok)
             done_v += 1
         if ic % 25 == 0 and zero_pts_ok:
+            # malformed stream: no point, and a catchment with no cell (NaN weights, intersect raises)
             run_voronoi(ctx, st, mods, gis, voronoi, ca, fine, area_l, [], "none", wrapper_ok)
+            empty = catchment_from_lists(np, Grid, Catchment, fine, [], [])
+            pts, kind = gen_points(rng, fine, area_l, done_v)
+            run_voronoi(ctx, st, mods, gis, voronoi, empty, fine, [], pts, kind, wrapper_ok)
+            coarse, align, ov, ratio = gen_coarse(rng, fine, area_l, done_i)
+            run_intersect(ctx, st, mods, empty, fine, coarse, [], False, "empty_catchment")
 
     # ---- the kernel on raw points
-    for ik in range(ctx.scale(200, 2000)):
+    for ik in range(ctx.scale(400, 4000)):
         g = gen_fine(rng, ik)
         g["nrows"], g["ncols"] = min(g["nrows"], 6), min(g["ncols"], 6)
         csz_area = g["csz"] / rng.choice([1.0, 2.0, 3.0, 4.0, 1.5, rng.uniform(1.0, 4.0)])
